@@ -60,6 +60,8 @@ def recursion_free(ctx, col, rule, entries, what, allow=VIEW_ACCESSORS, exclude_
 
 def run(ctx, col, tier):
     repo = ctx.repo
+    from ..rules import stateless as _stateless_memo
+    _stateless_memo.run_memo(ctx, col)
     col.rule("R-CG", "no strong call-graph cycle is reachable from the traversal entry points "
              "(callbacks are user code): stack depth of the kernel is a constant", floor=3)
     col.rule("R-FRAME", "explicit-stack DFS discipline of the kernel: LIFO frames, leave frame "
